@@ -321,12 +321,16 @@ class LocationTable:
 
         Temporarily solution following ETSI EN 302 636-4-1 V1.4.1 (2020-01). Section 8.1.3
         """
-        current_time = TST.set_in_normal_timestamp_seconds(
-            int(TimeService.time()))
+        current_time = TST.set_in_normal_timestamp_milliseconds(
+            int(TimeService.time() * 1000))
+        lifetime = self.mib.itsGnLifetimeLocTE * 1000
         with self.loc_t_lock:
             self.loc_t = {
                 gn: entry for gn, entry in self.loc_t.items()
-                if (current_time - entry.position_vector.tst) <= self.mib.itsGnLifetimeLocTE * 1000
+                # A position timestamp ahead of the local clock (sender clock skew)
+                # has a negative age modulo 2^32: the entry has not expired yet.
+                if (current_time - entry.position_vector.tst) <= lifetime
+                or entry.position_vector.tst > current_time
             }
 
     def new_shb_packet(
